@@ -388,4 +388,22 @@ example : ∃ l bs v', runScript anyLenM anyMarshalM [.mar, .mar, .len, .mar, .l
     .ok ([.bytes bs, .bytes bs, .size l, .bytes bs, .size l], v') :=
   ⟨_, _, _, script_repeatable (interface_repeatable exNested) rfl rfl _⟩
 
+/-! ### the kinds whose codecs changed with the repaired library (8-byte TTL setters and meter instruction, padded hello
+    element that stores its Length, one-byte Pad1 option), through the interface -/
+
+/-- a Hello whose version-bitmap element holds a stale Length (0): MarshalBinary() now stores 8 in the element — the
+    element is no longer pure (`C13.helloElemVersionBitmap_not_pure`) but every script still gives one size and one
+    encoding -/
+def exHello : V := .obj "Hello" [msgOfpHeader Gen.openflow13.Type_Hello,
+  .list [.obj "HelloElemVersionBitmap" [.obj "HelloElemHeader" [.num 1, .num 0], .list [.num 18]]]]
+example : Encodable anyLenM anyMarshalM exHello := ⟨_, _, _, _, rfl, rfl⟩
+example : ∃ l bs v', runScript anyLenM anyMarshalM [.len, .mar, .mar, .len, .mar] exHello =
+    .ok ([.size l, .bytes bs, .bytes bs, .size l, .bytes bs], v') :=
+  ⟨_, _, _, script_repeatable (interface_repeatable exHello) rfl rfl _⟩
+example : anyMarshalM (ActionMplsTtl.new 7) = .ok ([0, 15, 0, 8, 7, 0, 0, 0], ActionMplsTtl.new 7) := rfl
+example : Encodable anyLenM anyMarshalM (ActionNwTtl.new 9) := ⟨_, _, _, _, rfl, rfl⟩
+example : anyMarshalM (InstrMeter.new 5) = .ok ([0, 6, 0, 8, 0, 0, 0, 5], InstrMeter.new 5) := rfl
+example : anyMarshalM (.obj "p.Option" [.num 0, .num 0, .bytes []]) =
+    .ok ([0], .obj "p.Option" [.num 0, .num 0, .bytes []]) := rfl
+
 end OFV.Props.C13b
